@@ -90,6 +90,8 @@ func init() {
 			{ID: "C09.R5", Title: "the operand of utf8.FullRune on the stream window ends at s.length", Covers: "a multi-byte character split across chunks decodes as in buffer mode", Min: 1, Run: c09r5},
 			{ID: "C06.R5", Title: "look-ahead reads are length-guarded (shared with C06; in stream mode a single refill is not a guard, a loop until enough bytes is)", Covers: "escapes split over several reads decode as in buffer mode", Min: 25, Run: c06r5},
 			{ID: "C09.R6", Title: "wherever the stream window is spliced in place (s.buf = append(append(s.buf[:A], X...), s.buf[B:]...)) the update of s.length in the same statement list equals A + len(X) - B as a linear form", Covers: "after an escape or invalid byte was rewritten, the scanners still know how much data the window holds", Min: 3, Run: c09r6},
+			{ID: "C09.R7", Title: "must-analysis per stream scanner with a local cursor: at every (*Stream).read call the local cursor has been written to s.cursor since it last moved", Covers: "a token cut by a chunk boundary resumes where it stopped", Min: 15, Run: c09r7},
+			{ID: "C09.R8", Title: "in every in-string dispatch of a stream scanner, the backslash clause re-takes the window after its refill with stat(), never statForRetry()", Covers: "an escape cut right behind the backslash is still an escape", Min: 4, Run: c09r8},
 			{ID: "C09.R4", Title: "for 13 buffer/stream scanner pairs the value-start dispatch sends the same non-NUL byte values to an error and names the same bytes in its case labels", Covers: "both modes give the same accept/reject verdict at value start", Min: 20, Run: c09r4},
 		},
 	})
